@@ -96,4 +96,4 @@ class ParamsTrans:
         return np.dot(np.dot(grad, self.err_matrix), grad.T)
 
     def __getitem__(self, key):
-        return self.vm.variables[key]
+        return self.vm.read(key)
